@@ -282,9 +282,60 @@ pub fn declared_count_corpus(prop: &str, extra_polls: usize) -> Vec<Scenario> {
     v
 }
 
+/// One list response that is longer than 2^16 bytes (9 400 small entries) and one whose list has
+/// more than 2^16 entries, each intact, cut at and around the 2^16th byte, and with a declared
+/// count that is larger than the number of entries present (re-sealed): offsets, lengths and
+/// counts inside one message pass every 16-bit limit.
+pub fn big_message_corpus(prop: &str, extra_polls: usize) -> Vec<Scenario> {
+    use crate::smlref::{RBody, REntry, RMsg, RValue};
+    let mut v = Vec::new();
+    let mut rng = Rng::new(0xB16);
+    for n in [9_400usize, 65_540] {
+        let entries: Vec<REntry> = (0..n)
+            .map(|i| REntry { name: Hx(vec![(i % 251) as u8]), status: None, val_time: None, unit: None, scaler: None, value: RValue::U8((i % 256) as u8), sig: None })
+            .collect();
+        let m = RMsg {
+            tid: Hx(vec![1, 2, 3]),
+            group: 0,
+            abort: 0,
+            body: RBody::GetList { client_id: None, server_id: Hx(vec![9]), list_name: None, sensor_time: None, entries, sig: None, gateway_time: None },
+        };
+        let body = smlgen::encode_body(&m, &mut rng, &smlgen::Profile::plain());
+        let close = RMsg { tid: Hx(vec![4]), group: 0, abort: 0, body: RBody::Close { sig: None } };
+        let close = MsgScn { body: Hx(smlgen::encode_body(&close, &mut rng, &smlgen::Profile::plain())), seal: Seal::Good };
+        let mk = |b: Vec<u8>, post: Vec<ByteOp>, sub: &str, note: String| {
+            Scenario::File(FileScn { prop: prop.into(), sub: sub.into(), msgs: vec![MsgScn { body: Hx(b), seal: Seal::Good }, close.clone()], post, extra_polls, notes: vec![format!("base:big-list({})", n), note] })
+        };
+        v.push(mk(body.clone(), vec![], "valid", "intact".into()));
+        let total = body.len() + 4;
+        for at in [65_535usize, 65_536, 65_537, total / 2, total - 1, total, total + 1] {
+            v.push(mk(body.clone(), vec![ByteOp::Truncate { at }], "enum-truncate", format!("cut at {}", at)));
+        }
+        // the value list is the only list with n elements
+        let sites = smlgen::walk_sites(&body);
+        if let Some(site) = sites.iter().find(|s| s.ty == smlgen::TY_LIST && s.len == n) {
+            for declared in [n + 1, n + 2, n + 9_363, 2 * n, 0xffff_fffe, 0xffff_ffff] {
+                let mut b = body.clone();
+                b.splice(site.off..site.off + site.tlf_size, smlgen::tlf(smlgen::TY_LIST, declared, 0));
+                v.push(mk(b, vec![], "resealed", format!("msg0:declared-count(entries={},declared={})", n, declared)));
+            }
+            // ... and fewer than present
+            let mut b = body.clone();
+            b.splice(site.off..site.off + site.tlf_size, smlgen::tlf(smlgen::TY_LIST, n - 1, 0));
+            v.push(mk(b, vec![], "resealed", format!("msg0:declared-count(entries={},declared={})", n, n - 1)));
+        }
+        v.push(mk(body.clone(), vec![ByteOp::Flip { at: total - 3, bit: 0 }], "enum-flip", "checksum bit".into()));
+    }
+    v
+}
+
 pub fn enum_corpus(prop: &str, tier: Tier, extra_polls: usize) -> Vec<Scenario> {
     {
         let mut v = declared_count_corpus(prop, extra_polls);
+        if !cfg!(debug_assertions) {
+            // (the unoptimised build of the simulator spends most of a minute per megabyte)
+            v.extend(big_message_corpus(prop, extra_polls));
+        }
         for (bi, msgs) in base_set().into_iter().enumerate() {
             let base = FileScn { prop: prop.into(), sub: "valid".into(), msgs: msgs.clone(), post: vec![], extra_polls, notes: vec![format!("base:{}", bi)] };
             let total = base.bytes().len();
